@@ -2613,10 +2613,24 @@ pub fn assign(env: &REnv, lhs: &EvaluatedLvalue, rt: Option<&ObjType>, rhs: Obj)
             "Can't assign to raw splat {:?}",
             lhs
         ))),
-        EvaluatedLvalue::Or(a, b) => match assign(env, a, rt, rhs.clone()) {
-            Ok(()) => Ok(()),
-            Err(_) => assign(env, b, rt, rhs),
-        },
+        EvaluatedLvalue::Or(a, b) => {
+            let before: HashSet<String> = try_borrow_nres(env, "or pattern", "snapshot")?
+                .vars
+                .keys()
+                .cloned()
+                .collect();
+            match assign(env, a, rt, rhs.clone()) {
+                Ok(()) => Ok(()),
+                Err(_) => {
+                    // forget the names the failed alternative declared before it failed, or the
+                    // second alternative can't declare them
+                    try_borrow_mut_nres(env, "or pattern", "rollback")?
+                        .vars
+                        .retain(|k, _| before.contains(k));
+                    assign(env, b, rt, rhs)
+                }
+            }
+        }
         EvaluatedLvalue::And(a, b) => {
             assign(env, a, rt, rhs.clone())?;
             assign(env, b, rt, rhs)
